@@ -10,6 +10,12 @@ floating-point unit conversion does not move a printed digit is the magnitude bo
 import Iodata.Lemmas.Fmt.Xyz
 import Iodata.Lemmas.Fmt.Sdf
 import Iodata.Lemmas.Fmt.Pdb
+import Iodata.Lemmas.Fmt.PdbConect
+import Iodata.Lemmas.Fmt.Fchk
+import Iodata.Lemmas.Fmt.Cube
+import Iodata.Lemmas.Fmt.Mol2
+import Iodata.Lemmas.Fmt.Fcidump
+import Iodata.Lemmas.Fmt.Poscar
 import Iodata.Gen.Layouts
 
 namespace Iodata.Props.C15
@@ -64,26 +70,120 @@ theorem sdf_generations (T : Tables) (L : Sdf.Layout) (hL : Sdf.LayoutOK L) (o o
 
 /-! ## PDB -/
 
-/-- PDB, partial (objects without bonds; the CONECT loop is not proved, see C02): the reloaded object,
-saved again, reloads as itself: `norm` is idempotent through `Loaded.obj` and stays in the domain. -/
-theorem pdb_norm_stable_partial (T : Tables) (L : Pdb.Layout) (hL : Pdb.LayoutOK L) (o : Pdb.Obj) (h : Pdb.Dom T L o) :
-    Pdb.norm L (Pdb.norm L o).obj = Pdb.norm L o ∧ Pdb.Dom T L (Pdb.norm L o).obj :=
-  ⟨Pdb.norm_idem L hL o h.2.2.2.2.2, Pdb.dom_norm T L hL o h⟩
+/-- PDB: the reloaded object (bonds de-duplicated and ordered by `normBonds`), saved again, reloads as itself:
+`norm` is idempotent through `Loaded.obj` — in particular `normBonds` is a fixed point of bonds → CONECT records
+→ bonds — and stays in the domain. -/
+theorem pdb_norm_stable (T : Tables) (L : Pdb.Layout) (hL : Pdb.LayoutOK L) (o : Pdb.Obj) (h : Pdb.DomB T L o) :
+    Pdb.norm L (Pdb.norm L o).obj = Pdb.norm L o ∧ Pdb.DomB T L (Pdb.norm L o).obj :=
+  ⟨Pdb.norm_idem_bonds L hL o, Pdb.domB_norm T L hL o h⟩
 
-/-- PDB, partial: generations 2 and 3 coincide (objects without bonds). -/
-theorem pdb_generations_partial (T : Tables) (L : Pdb.Layout) (hL : Pdb.LayoutOK L) (o : Pdb.Obj) (x₁ : Pdb.Loaded)
-    (h : Pdb.Dom T L o) (h₁ : Pdb.load T L (Pdb.dump T L o) = .ok x₁) :
+/-- PDB: the de-duplicated bond list is unchanged by a further save/reload, for every bond list. -/
+theorem pdb_bonds_stable (n : Nat) (bonds : List (Nat × Nat)) :
+    Pdb.normBonds n (Pdb.normBonds n bonds) = Pdb.normBonds n bonds :=
+  Pdb.normBonds_idem n bonds
+
+/-- PDB: generations 2 and 3 coincide, objects with bonds included. -/
+theorem pdb_generations (T : Tables) (L : Pdb.Layout) (hL : Pdb.LayoutOK L) (hC : Pdb.ConectOK L) (o : Pdb.Obj)
+    (x₁ : Pdb.Loaded) (h : Pdb.DomB T L o) (h₁ : Pdb.load T L (Pdb.dump T L o) = .ok x₁) :
     Pdb.load T L (Pdb.dump T L x₁.obj) = .ok x₁ ∧
     ∀ x₂, Pdb.load T L (Pdb.dump T L x₁.obj) = .ok x₂ → Pdb.dump T L x₂.obj = Pdb.dump T L x₁.obj := by
   have e : x₁ = Pdb.norm L o := by
-    have := Pdb.load_dump T L hL o h
+    have := Pdb.load_dump_bonds T L hL hC o h
     rw [this] at h₁; exact (Except.ok.inj h₁).symm
-  have h2 := Pdb.load_dump T L hL x₁.obj (e ▸ Pdb.dom_norm T L hL o h)
-  have hid : Pdb.norm L x₁.obj = x₁ := by rw [e]; exact Pdb.norm_idem L hL o h.2.2.2.2.2
+  have h2 := Pdb.load_dump_bonds T L hL hC x₁.obj (e ▸ Pdb.domB_norm T L hL o h)
+  have hid : Pdb.norm L x₁.obj = x₁ := by rw [e]; exact Pdb.norm_idem_bonds L hL o
   rw [hid] at h2
   refine ⟨h2, ?_⟩
   intro x₂ h3
   rw [h2] at h3
   rw [← Except.ok.inj h3]
+
+/-! ## FCHK, field layer -/
+
+/-- FCHK: what a reload returns (empty arrays dropped, title defaulted, names lower-cased, run type mapped through both
+tables) is a fixed point and stays in the domain. -/
+theorem fchk_norm_stable (L : Fchk.Layout) (hL : Fchk.LayoutOK L) (R : Fchk.RunTypes) (hR : Fchk.RunTypesOK L R)
+    (o : Fchk.Obj) (h : Fchk.Dom L o) :
+    Fchk.norm L R (Fchk.norm L R o).obj = Fchk.norm L R o ∧ Fchk.Dom L (Fchk.norm L R o).obj :=
+  ⟨Fchk.norm_idem L hL R hR o h, Fchk.dom_norm L hL R hR o h⟩
+
+/-- FCHK: generations 2 and 3 coincide at the field layer. -/
+theorem fchk_generations (L : Fchk.Layout) (hL : Fchk.LayoutOK L) (R : Fchk.RunTypes) (hR : Fchk.RunTypesOK L R)
+    (o : Fchk.Obj) (x₁ : Fchk.Loaded) (h : Fchk.Dom L o)
+    (h₁ : Fchk.load L.reader R (fun _ => true) (Fchk.dump L R o) = .ok x₁) :
+    Fchk.load L.reader R (fun _ => true) (Fchk.dump L R x₁.obj) = .ok x₁ ∧
+    ∀ x₂, Fchk.load L.reader R (fun _ => true) (Fchk.dump L R x₁.obj) = .ok x₂ → Fchk.dump L R x₂.obj = Fchk.dump L R x₁.obj := by
+  have e : x₁ = Fchk.norm L R o := by
+    have := Fchk.load_dump L hL R hR (fun _ => true) o h (fun _ _ => rfl)
+    rw [this] at h₁; exact (Except.ok.inj h₁).symm
+  have h2 := Fchk.load_dump L hL R hR (fun _ => true) x₁.obj (e ▸ Fchk.dom_norm L hL R hR o h) (fun _ _ => rfl)
+  have hid : Fchk.norm L R x₁.obj = x₁ := by rw [e]; exact Fchk.norm_idem L hL R hR o h
+  rw [hid] at h2
+  refine ⟨h2, ?_⟩
+  intro x₂ h3
+  rw [h2] at h3
+  rw [← Except.ok.inj h3]
+
+/-! ## Cube -/
+
+/-- Cube: the reloaded object is a fixed point (the zero-core-charge replacement happens once) and stays in the domain. -/
+theorem cube_norm_stable (L : Cube.Layout) (hL : Cube.LayoutOK L) (o : Cube.Obj) (h : Cube.Dom L o) :
+    Cube.norm L (Cube.norm L o) = Cube.norm L o ∧ Cube.Dom L (Cube.norm L o) :=
+  ⟨Cube.norm_idem L hL o, Cube.dom_norm L hL o h⟩
+
+/-- Cube: generations 2 and 3 coincide. -/
+theorem cube_generations (L : Cube.Layout) (hL : Cube.LayoutOK L) (o o₁ : Cube.Obj) (h : Cube.Dom L o)
+    (h₁ : Cube.load L (Cube.dump L o) = .ok o₁) :
+    Cube.load L (Cube.dump L o₁) = .ok o₁ ∧
+    ∀ o₂, Cube.load L (Cube.dump L o₁) = .ok o₂ → Cube.dump L o₂ = Cube.dump L o₁ := by
+  have e : o₁ = Cube.norm L o := by
+    have := Cube.load_dump L hL o h
+    rw [this] at h₁; exact (Except.ok.inj h₁).symm
+  have h2 := Cube.load_dump L hL o₁ (e ▸ Cube.dom_norm L hL o h)
+  have hid : Cube.norm L o₁ = o₁ := by rw [e]; exact Cube.norm_idem L hL o
+  rw [hid] at h2
+  refine ⟨h2, ?_⟩
+  intro o₂ h3
+  rw [h2] at h3
+  rw [← Except.ok.inj h3]
+
+/-! ## MOL2 -/
+
+/-- MOL2: the reloaded object (types and charges filled in, unknown bond types mapped to `un`) is a fixed point and stays
+in the domain. -/
+theorem mol2_norm_stable (T : Tables) (L : Mol2.Layout) (hL : Mol2.LayoutOK T L) (o : Mol2.Obj) (h : Mol2.Dom T L o) :
+    Mol2.norm T L (Mol2.norm T L o).obj = Mol2.norm T L o ∧ Mol2.Dom T L (Mol2.norm T L o).obj :=
+  ⟨Mol2.norm_idem T L hL o, Mol2.dom_norm T L hL o h⟩
+
+/-- MOL2: generations 2 and 3 coincide. -/
+theorem mol2_generations (T : Tables) (L : Mol2.Layout) (hL : Mol2.LayoutOK T L) (o : Mol2.Obj) (x₁ : Mol2.Loaded)
+    (h : Mol2.Dom T L o) (h₁ : Mol2.load T L (Mol2.dump T L o) = .ok x₁) :
+    Mol2.load T L (Mol2.dump T L x₁.obj) = .ok x₁ ∧
+    ∀ x₂, Mol2.load T L (Mol2.dump T L x₁.obj) = .ok x₂ → Mol2.dump T L x₂.obj = Mol2.dump T L x₁.obj := by
+  have e : x₁ = Mol2.norm T L o := by
+    have := Mol2.load_dump T L hL o h
+    rw [this] at h₁; exact (Except.ok.inj h₁).symm
+  have h2 := Mol2.load_dump T L hL x₁.obj (e ▸ Mol2.dom_norm T L hL o h)
+  have hid : Mol2.norm T L x₁.obj = x₁ := by rw [e]; exact Mol2.norm_idem T L hL o
+  rw [hid] at h2
+  refine ⟨h2, ?_⟩
+  intro x₂ h3
+  rw [h2] at h3
+  rw [← Except.ok.inj h3]
+
+/-! ## FCIDUMP, index layer -/
+
+/-- FCIDUMP: the array reloaded from the file writes the same index lines again (second generation = first). -/
+theorem fcidump_entries_stable (α : Type) [DecidableEq α] (zero : α) (n : Nat) (T : Helpers.Idx → α) (h : Fcidump.Sym T) :
+    Fcidump.entries zero n (Fcidump.fill zero (Fcidump.entries zero n T)) = Fcidump.entries zero n T :=
+  Fcidump.entries_fill zero n T h
+
+/-! ## POSCAR, structure layer -/
+
+/-- POSCAR: a grouped atom list is written in the same order again: the re-ordering happens once (the remaining drift of
+the real code is floating-point round-off of the direct coordinates: known finding `poscar:*drift*`). -/
+theorem poscar_group_stable (α : Type) (key : α → Nat) (atoms : List α) :
+    Poscar.group key (Poscar.group key atoms) = Poscar.group key atoms :=
+  Poscar.group_idem key atoms
 
 end Iodata.Props.C15
